@@ -12,7 +12,8 @@ Correspondence (real rpyc vs. Rpyc.Policy through the compiled driver `drv_polic
   `Service._connect` with differing config dicts — literal ones and application dict OBJECTS that are edited
   before and AFTER being passed and then reused for other connections —, classic-mode connects (`SlaveService`,
   real `ClassicService` pairs via utils.factory/utils.classic), `MasterService` pairs, connections a real
-  `ThreadedServer` makes from one `protocol_config` dict, closes, and the application editing `DEFAULT_CONFIG`
+  `ThreadedServer` makes from one `protocol_config` dict, several real servers constructed without a configuration
+  (their `protocol_config` edited in place afterwards, connections made by each before and after), closes, and the application editing `DEFAULT_CONFIG`
   itself (restored when the case ends)); these histories are SAMPLED;
   after every event every connection's `_config` (read key by key), a panel of its decisions and `DEFAULT_CONFIG`
   are compared with the model's world, and `DEFAULT_CONFIG` is compared by deep equality with a snapshot plus
@@ -856,6 +857,7 @@ def gen_env_overlay(r):
 
 
 N_DICTS = 2
+N_SERVERS = 3
 CLASSIC_KINDS = ("slave", "classic-pair")       # connection kinds whose local service grants itself classic mode
 
 
@@ -871,11 +873,48 @@ def gen_history(r):
         ov = gen_overlay(r)
         ov.setdefault(r.choice(SWITCH_KEYS), r.chance(1, 2))
         evs.append(["edit", 0, ov])
+    servers = {}            # k -> service kind ("void" | "slave") of the real servers constructed so far
+    if r.chance(1, 3):
+        # two servers constructed without a configuration; the first one's protocol_config is edited in place; the
+        # second is constructed before or after that; each then makes a connection
+        servers[0] = r.choice(["void", "void", "slave"])
+        servers[1] = r.choice(["void", "void", "slave"])
+        later = r.chance(1, 2)
+        evs.append(["newserver", 0, None, servers[0]])
+        if not later:
+            evs.append(["newserver", 1, None, servers[1]])
+        if r.chance(1, 3):
+            evs.append(["srvconn", 0, 1 if not later else 0, servers[1 if not later else 0]])
+            state[0] = "live"
+        ov = gen_env_overlay(r)
+        ov.setdefault(r.choice(["allow_public_attrs", "allow_all_attrs", "allow_setattr"]), True)
+        evs.append(["editserver", 0, ov])
+        if later:
+            evs.append(["newserver", 1, None, servers[1]])
+        order = [1, 0] if r.chance(2, 3) else [0, 1]
+        for sk in order[:r.range(1, 2)]:
+            free = [x for x in range(slots) if state[x] == "fresh"]
+            if free:
+                evs.append(["srvconn", free[0], sk, servers[sk]])
+                state[free[0]] = "live"
     for _ in range(r.range(3, 14)):
         i = r.below(slots)
         k = r.below(10)
-        e = r.below(12)
-        if e < 2:
+        e = r.below(14)
+        if e >= 12:
+            # real servers: constructed without a protocol_config (mostly) or with an application dict object; edited
+            # in place afterwards (`server.protocol_config[...] = ...`, the idiom of the library's own tests)
+            if len(servers) < N_SERVERS and (not servers or r.chance(1, 2)):
+                sk = len(servers)
+                servers[sk] = r.choice(["void", "void", "slave"])
+                evs.append(["newserver", sk, None if r.chance(3, 4) else r.below(N_DICTS), servers[sk]])
+            else:
+                evs.append(["editserver", r.choice(sorted(servers)), gen_env_overlay(r)])
+        elif state[i] == "fresh" and servers and r.chance(1, 3):
+            sk = r.choice(sorted(servers))
+            evs.append(["srvconn", i, sk, servers[sk]])
+            state[i] = "live"
+        elif e < 2:
             evs.append(["edit", r.below(N_DICTS), gen_env_overlay(r) if r.chance(2, 3) else gen_overlay(r)])
         elif e == 2:
             evs.append(["setdefault", gen_env_overlay(r)])
@@ -916,6 +955,22 @@ def overlay_tokens(ov):
     return " ".join(toks)
 
 
+def reset_mutable_defaults():
+    """every history starts from a clean process as far as the harness can arrange it: dict objects that live in the
+    DEFAULT ARGUMENTS of the constructors/connect functions (`config={}` ...) survive from one case to the next, so
+    whatever an earlier case (or a defect) left in them is removed — a replay of one history then stands on its own"""
+    protocol, service, _h = rpyc_mods()
+    from rpyc.utils import server as server_mod, factory
+    fns = [protocol.Connection.__init__, server_mod.Server.__init__]
+    c = vars(service.Service).get("_connect")
+    fns.append(getattr(c, "func", getattr(c, "__func__", None)))
+    fns += [getattr(factory, n) for n in dir(factory) if n.startswith("connect")]
+    for fn in fns:
+        for d in (getattr(fn, "__defaults__", None) or ()) + tuple((getattr(fn, "__kwdefaults__", None) or {}).values()):
+            if isinstance(d, dict) and d:
+                d.clear()
+
+
 def close_conn(conn):
     """close a connection made by HistoryRun.open_conn (pairs live on their own in-memory network)"""
     net = getattr(conn, "_c06_net", None)
@@ -936,6 +991,7 @@ class HistoryRun(object):
         self.conns = [None] * hist["slots"]
         self.dicts = [dict() for _ in range(N_DICTS)]       # the application's settings-dict OBJECTS
         self.servers, self.captured, self.socks, self.keep = {}, [], [], []
+        self.srv = {}            # k -> real server object made by a `newserver` event
         protocol, service, _h = rpyc_mods()
         self.protocol, self.service = protocol, service
 
@@ -996,6 +1052,16 @@ class HistoryRun(object):
             return self.captured.pop()
         raise ValueError(kind)
 
+    def make_server(self, svc, **kw):
+        """a real ThreadedServer that hands every connection it makes to the harness instead of serving it"""
+        from rpyc.utils.server import ThreadedServer
+        got = self.captured
+
+        class CapturingServer(ThreadedServer):
+            def _handle_connection(self, conn):
+                got.append(conn)
+        return CapturingServer(svc, hostname="127.0.0.1", port=0, auto_register=False, **kw)
+
     def decisions_of(self, c):
         out = []
         for okind, req, name in PANEL:
@@ -1016,6 +1082,23 @@ class HistoryRun(object):
             self.conns[i] = self.open_conn(kind, cfg)
         elif ev[0] == "close":
             close_conn(self.conns[ev[1]])
+        elif ev[0] == "newserver":
+            _n, k, d, skind = ev
+            svc = service.SlaveService if skind == "slave" else service.VoidService
+            kw = {} if d is None else dict(protocol_config=self.dicts[d])
+            self.srv[k] = self.make_server(svc, **kw)
+        elif ev[0] == "srvconn":
+            import socket
+            a, b = socket.socketpair()
+            self.socks += [a, b]
+            self.srv[ev[2]]._serve_client(a, None)
+            self.conns[ev[1]] = self.captured.pop()
+        elif ev[0] == "editserver":
+            cfg = to_real_dict(ev[2])
+            items = sorted(cfg.items(), key=lambda kv: kv[0])
+            # both idioms: item assignment for the first key, .update() for the rest
+            self.srv[ev[1]].protocol_config[items[0][0]] = items[0][1]
+            self.srv[ev[1]].protocol_config.update(dict(items[1:]))
         elif ev[0] == "edit":
             self.dicts[ev[1]].update(to_real_dict(ev[2]))
         elif ev[0] == "setdefault":
@@ -1031,6 +1114,12 @@ class HistoryRun(object):
                                              overlay_tokens(ev[2]))]
         if ev[0] == "openwith":
             return ["policy openwith %d %s %d" % (ev[1], "classic" if ev[3] in CLASSIC_KINDS else "plain", ev[2])]
+        if ev[0] == "newserver":
+            return ["policy newserver %d %s" % (ev[1], "N" if ev[2] is None else str(ev[2]))]
+        if ev[0] == "srvconn":
+            return ["policy srvconn %d %d %s" % (ev[1], ev[2], "classic" if ev[3] == "slave" else "plain")]
+        if ev[0] == "editserver":
+            return ["policy editserver %d %s" % (ev[1], overlay_tokens(ev[2]))]
         if ev[0] == "edit":
             return ["policy dict %d %s" % (ev[1], overlay_tokens(ev[2]))]
         if ev[0] == "setdefault":
@@ -1060,7 +1149,7 @@ class HistoryRun(object):
         for c in self.conns:
             if c is not None and not c.closed:
                 close_conn(c)
-        for srv in self.servers.values():
+        for srv in list(self.servers.values()) + list(self.srv.values()):
             try:
                 srv.listener.close()
             except Exception:  # noqa
@@ -1080,6 +1169,7 @@ def default_text():
 def history_lines(hist):
     """-> (model lines, expected outputs from the real code (None = setup line expecting `ok`), labels)"""
     protocol, _s, _h = rpyc_mods()
+    reset_mutable_defaults()
     snapshot = copy.deepcopy(protocol.DEFAULT_CONFIG)
     run = HistoryRun(hist)
     lines, want, labels = ["policy reset"] + panel_setup_lines(), [], []
@@ -1174,7 +1264,9 @@ def correspondence(ctx):
         "exception class. Then %d seeded connection histories (open with literal config dicts or with application dict "
         "objects that are edited after use and reused / connection kinds: bare Connection, Void/custom Service._connect, "
         "SlaveService._connect, real ClassicService and MasterService pairs made through utils.factory / utils.classic on "
-        "the in-memory network, connections made by a real ThreadedServer from ONE protocol_config dict / close / the "
+        "the in-memory network, connections made by a real ThreadedServer from ONE protocol_config dict, several real "
+        "servers constructed WITHOUT a protocol_config whose protocol_config is edited in place afterwards and which make "
+        "connections before and after / close / the "
         "application editing DEFAULT_CONFIG mid-history); the histories are SAMPLED, only the table is exhaustive; comparing every connection's config, %d panel decisions per live "
         "connection and DEFAULT_CONFIG after every event. Non-trivial: anything but 'operation kind disabled, no "
         "probe, AttributeError'. Distinct: (prefix, name class, shape, request, output with names abstracted to "
@@ -1277,10 +1369,10 @@ def correspondence(ctx):
             bad = compare_history(hist, o, want, labels, lines)
             c.evaluations += 1
             n_checks += sum(1 for w in want if w is not None)
-            kinds = tuple(sorted(set(e[0] + (":" + e[3] if e[0] in ("open", "openwith") else "") for e in hist["events"])))
+            kinds = tuple(sorted(set(e[0] + (":" + e[3] if e[0] in ("open", "openwith", "srvconn", "newserver") else "") for e in hist["events"])))
             c.count("history:len=%d" % len(hist["events"]))
             for e in hist["events"]:
-                c.count("history-event:" + e[0] + (":" + e[3] if e[0] in ("open", "openwith") else ""))
+                c.count("history-event:" + e[0] + (":" + e[3] if e[0] in ("open", "openwith", "srvconn", "newserver") else ""))
             for w, lab in zip(want, labels):
                 if w is not None:
                     c.signatures.add(("history", lab.split(": ")[1].split(" ")[0], w if len(w) < 120 else hash(w)))
@@ -1530,6 +1622,7 @@ def oracle_history(hist):
     allows (panel decisions of every other live connection, and of a connection freshly opened with no config, are
     the same before and after each event)."""
     protocol, _s, _h = rpyc_mods()
+    reset_mutable_defaults()
     snapshot = copy.deepcopy(protocol.DEFAULT_CONFIG)
     run = HistoryRun(hist)
 
@@ -1545,9 +1638,10 @@ def oracle_history(hist):
     try:
         base = fresh_default_decisions()
         shadow = [dict() for _ in range(N_DICTS)]      # what the APPLICATION wrote into its dict objects, kept apart
+        sshadow = {}                                    # ... and into each server's protocol_config
         for step, ev in enumerate(hist["events"]):
             # edits of an application dict / of DEFAULT_CONFIG belong to no connection: EVERY open connection is "other"
-            actor = ev[1] if ev[0] in ("open", "openwith", "slave", "close") else None
+            actor = ev[1] if ev[0] in ("open", "openwith", "srvconn", "close") else None
             before = {}
             for j, c in enumerate(run.conns):
                 if c is not None and not c.closed and j != actor:
@@ -1555,6 +1649,25 @@ def oracle_history(hist):
             run.apply(ev)
             if ev[0] == "edit":
                 shadow[ev[1]].update(copy.deepcopy(ev[2]))
+            if ev[0] == "newserver":
+                # what the application told server k: the dict object it gave (shared with it, documented), else nothing
+                sshadow[ev[1]] = shadow[ev[2]] if ev[2] is not None else {}
+            if ev[0] == "editserver":
+                sshadow[ev[1]].update(copy.deepcopy(ev[2]))
+            if ev[0] == "srvconn":
+                # a connection made by server B decides as B's OWN configuration says, whatever was done to other servers
+                said = copy.deepcopy(sshadow[ev[2]])
+                ref = run.open_conn("slave" if ev[3] == "slave" else "void", to_real_dict(said))
+                try:
+                    want = run.decisions_of(ref)
+                finally:
+                    close_conn(ref)
+                got = run.decisions(ev[1])
+                if got != want:
+                    k = [i for i in range(len(want)) if want[i] != got[i]][0]
+                    return ("step %d: connection %d was made by server %d, whose own configuration says %r, but it decides "
+                            "%s %s %r as %r; a connection opened with exactly those settings decides %r"
+                            % (step, ev[1], ev[2], said, PANEL[k][0], PANEL[k][1], PANEL[k][2], got[k], want[k]))
             if ev[0] in ("open", "openwith"):
                 # the new connection's policy = defaults overridden by exactly what the application's dict said when it
                 # was passed (plus classic overrides iff it is the classic one): same decisions as a connection of the
@@ -1578,6 +1691,8 @@ def oracle_history(hist):
                 if after != dec:
                     k = [i for i in range(len(dec)) if dec[i] != after[i]][0]
                     what = ("%s on connection %s" % (ev[0], actor) if actor is not None else
+                            "the application editing server %s's protocol_config" % ev[1] if ev[0] == "editserver" else
+                            "constructing server %s" % ev[1] if ev[0] == "newserver" else
                             "the application editing its settings dict %s after use" % ev[1] if ev[0] == "edit" else
                             "the application editing DEFAULT_CONFIG" if ev[0] == "setdefault" else ev[0])
                     return ("step %d (%s) changed what the already-open connection %d allows: %s %s %r: before %r, after %r"
@@ -1608,11 +1723,20 @@ def shrink_history(hist, msg):
             # an event on a slot whose `open` was removed makes no sense
             opened = set()
             ok = True
+            made = set()
             for e in cand:
                 if e[0] in ("open", "openwith"):
                     opened.add(e[1])
-                elif e[0] in ("slave", "close") and e[1] not in opened:
+                elif e[0] == "close" and e[1] not in opened:
                     ok = False
+                elif e[0] == "newserver":
+                    made.add(e[1])
+                elif e[0] == "editserver" and e[1] not in made:
+                    ok = False
+                elif e[0] == "srvconn":
+                    if e[2] not in made:
+                        ok = False
+                    opened.add(e[1])
             if not ok:
                 continue
             h2 = dict(hist, events=cand)
@@ -1630,6 +1754,8 @@ def case_signature(case, msg):
     if case.get("kind") == "history":
         if "was opened with the application's settings" in msg:
             return "history:later connection does not follow the settings it was given"
+        if "was made by server" in msg:
+            return "history:server connection does not follow its own server's configuration"
         return "history:" + msg.split(") changed")[0].split("(")[-1][:60]
     return "input:%s:%s:%s" % (case.get("req"), case.get("shape"), msg.split(";")[0][:50])
 
@@ -1673,28 +1799,40 @@ def _oracle_search(ctx, corr, broken):
             ctx.log("oracle crashed on a disagreeing case: %r" % (ex,))
     if best:
         return best[:3]
-    # 2. boundary corpus: the whole decision table through the oracle (default prefix first)
-    for p in ["exposed_", "x", ""]:
-        for case, _cfgl, _setup, _line, _thunk, _shape in table_cases([p]):
-            msg = oracle_case(case)
-            if msg:
-                consider(case, msg)
-                return best[:3]
-            if time.time() > deadline:
-                break
-        if time.time() > deadline:
-            break
-    # 3. fresh histories
     r = Rng(ctx.seed).fork("c06-search")
-    n = 0
-    while time.time() < deadline and n < 20000:
-        n += 1
-        hist = gen_history(r)
-        msg = oracle_history(hist)
-        if msg:
-            hist, msg = shrink_history(hist, msg)
-            consider(hist, msg)
+
+    def search_histories(until):
+        n = 0
+        while time.time() < until and n < 20000:
+            n += 1
+            hist = gen_history(r)
+            msg = oracle_history(hist)
+            if msg:
+                hist, msg = shrink_history(hist, msg)
+                consider(hist, msg)
+                return True
+        return False
+
+    def search_table(until):
+        # boundary corpus: the whole decision table through the oracle (default prefix first)
+        for p in ["exposed_", "x", ""]:
+            for case, _cfgl, _setup, _line, _thunk, _shape in table_cases([p]):
+                msg = oracle_case(case)
+                if msg:
+                    consider(case, msg)
+                    return True
+                if time.time() > until:
+                    return False
+        return False
+    # a broken obligation about object identity / construction points at histories: look there first
+    about_sharing = any(("measured_modes_are_good" in b or "config_handling_is_modelled" in b
+                         or "breaks_isolation" in b or "shared_default_set_hazard" in b) for b in broken)
+    if about_sharing:
+        if search_histories(time.time() + (deadline - time.time()) / 2) or search_table(deadline):
             return best[:3]
+        return None
+    if search_table(deadline) or search_histories(deadline):
+        return best[:3]
     return None
 
 
